@@ -488,11 +488,22 @@ async def _(mpc):
     return str(await mpc.output(f))
 
 
-@open_case('C30', 'C30-find-fractional-f', "find(x, 1, f=lambda i: 2**-i) on secure fixed-point bits (the docstring's example)", expected=0.25)
+@case('C30', "find(x, 1, f=lambda i: 2**-i) on secure fixed-point bits (the docstring's example), also via cs_f", 'c8a6098',
+      expected=[0.25, 0.25, [2.0, 0.25]])
 async def _(mpc):
     secfxp = mpc.SecFxp(16, 8)
     x = [secfxp(0), secfxp(0), secfxp(1), secfxp(0)]
-    return float(await mpc.output(mpc.find(x, 1, f=lambda i: 2 ** -i)))
+    r = [float(await mpc.output(mpc.find(x, 1, f=lambda i: 2 ** -i))),
+         float(await mpc.output(mpc.find(x, 1, cs_f=lambda b, i: (2 - b) * 2 ** -(i + 1))))]
+    return r + [[float(v) for v in await mpc.output(list(mpc.find(x, 1, f=lambda i: (i, 2 ** -i))))]]
+
+
+@case('C30', 'find with fractional f, 3 parties, not found', 'c8a6098', cfg=(3, 1, False), expected=[0.0625, 1])
+async def _(mpc):
+    secfxp = mpc.SecFxp(16, 8)
+    x = [secfxp(0)] * 4
+    nf, y = mpc.find(x, 1, e=None, f=lambda i: 2 ** -i)
+    return [float(await mpc.output(mpc.find(x, 1, f=lambda i: 2 ** -i))), int(await mpc.output(nf))]
 
 
 @open_case('C29', 'C29-rows-of-mixed-types', 'min of rows with entries of different secure types', expected=[1, 2.25])
